@@ -20,11 +20,9 @@ import (
 	"testing"
 	"time"
 
-	"github.com/aptpod/iscp-go/transport"
 	"github.com/aptpod/iscp-go/transport/compress"
 	iquic "github.com/aptpod/iscp-go/transport/quic"
 	iwt "github.com/aptpod/iscp-go/transport/webtransport"
-	vh "github.com/aptpod/iscp-go/verifhooks"
 	quicgo "github.com/quic-go/quic-go"
 	"github.com/quic-go/quic-go/http3"
 	webtransgo "github.com/quic-go/webtransport-go"
@@ -77,11 +75,6 @@ type pair struct {
 	libSend func([]byte) error     // unreliable Write of the sending library transport
 	rawSend func([]byte) error     // SendDatagram of the sending end's connection
 	close   func()
-}
-
-type unreliable interface {
-	Read() ([]byte, error)
-	Write([]byte) error
 }
 
 func newQuicPair(comp bool) (*pair, error) {
@@ -193,11 +186,6 @@ func newWebTransportPair(comp bool) (*pair, error) {
 	return &pair{kind: "webtransport", recv: ru.Read, libSend: su.Write, rawSend: cs.SendDatagram,
 		close: func() { stp.Close(); rt.Close(); closeAll() }}, nil
 }
-
-var (
-	_ transport.UnreliableTransport = nil
-	_ unreliable                    = nil
-)
 
 // ---------------------------------------------------------------------------------------------------
 // monitor: reader goroutine + multiset oracle
@@ -499,13 +487,13 @@ var assumeTransport = []string{
 
 func TestC14QuicGood(t *testing.T) {
 	e := vrun.LoadEnv()
-	meta := vrun.Meta{Property: "C14", Workload: "TestC14QuicGood", Total: e.Pick(60, 600), Rule: "QUIC. " + ruleGood, Assumptions: assumeTransport}
+	meta := vrun.Meta{Property: "C14", Workload: "TestC14QuicGood", Total: e.Pick(60, 1000), Rule: "QUIC. " + ruleGood, Assumptions: assumeTransport}
 	vrun.Loop(t, meta, 4, func(c *vrun.Case) vrun.Result { return runGood(c, newQuicPair, "quic") })
 }
 
 func TestC14WebTransportGood(t *testing.T) {
 	e := vrun.LoadEnv()
-	meta := vrun.Meta{Property: "C14", Workload: "TestC14WebTransportGood", Total: e.Pick(40, 300), Rule: "WebTransport. " + ruleGood, Assumptions: assumeTransport}
+	meta := vrun.Meta{Property: "C14", Workload: "TestC14WebTransportGood", Total: e.Pick(40, 600), Rule: "WebTransport. " + ruleGood, Assumptions: assumeTransport}
 	vrun.Loop(t, meta, 4, func(c *vrun.Case) vrun.Result { return runGood(c, newWebTransportPair, "webtransport") })
 }
 
@@ -615,13 +603,13 @@ const ruleBadMix = "Case = fresh loopback connection (no compression); between 8
 
 func TestC14QuicMalformed(t *testing.T) {
 	e := vrun.LoadEnv()
-	meta := vrun.Meta{Property: "C14", Workload: "TestC14QuicMalformed", Total: e.Pick(40, 400), Rule: "QUIC. " + ruleBadMix, Assumptions: assumeTransport}
+	meta := vrun.Meta{Property: "C14", Workload: "TestC14QuicMalformed", Total: e.Pick(40, 800), Rule: "QUIC. " + ruleBadMix, Assumptions: assumeTransport}
 	vrun.Loop(t, meta, 4, func(c *vrun.Case) vrun.Result { return runBadMix(c, newQuicPair, "quic") })
 }
 
 func TestC14WebTransportMalformed(t *testing.T) {
 	e := vrun.LoadEnv()
-	meta := vrun.Meta{Property: "C14", Workload: "TestC14WebTransportMalformed", Total: e.Pick(24, 200), Rule: "WebTransport. " + ruleBadMix, Assumptions: assumeTransport}
+	meta := vrun.Meta{Property: "C14", Workload: "TestC14WebTransportMalformed", Total: e.Pick(24, 400), Rule: "WebTransport. " + ruleBadMix, Assumptions: assumeTransport}
 	vrun.Loop(t, meta, 4, func(c *vrun.Case) vrun.Result { return runBadMix(c, newWebTransportPair, "webtransport") })
 }
 
@@ -695,5 +683,3 @@ func TestC14WebTransportShortDatagram(t *testing.T) {
 	meta := vrun.Meta{Property: "C14", Workload: "TestC14WebTransportShortDatagram", Total: e.Pick(8, 12), Exhaustive: true, Rule: "WebTransport. " + ruleShort, Assumptions: assumeTransport}
 	vrun.Loop(t, meta, 1, func(c *vrun.Case) vrun.Result { return runShort(c, newWebTransportPair, "webtransport") })
 }
-
-var _ = vh.SegmentMaxPayloadSize
